@@ -97,7 +97,7 @@ groups:
   'C(C)(H)3': {thermochem: {T_ref: 298.15 K, ND_S_ref: 15.25, ND_Cp_data: [[300 K, 3.0], [800 K, 5.0]], range: [250 K, 1000 K]}}
   'C(C)3(H)': {thermochem: {T_ref: 298.15 K, ND_H_ref: -3.5, ND_S_ref: -6.25, ND_Cp_data: [[300 K, 2.25], [800 K, 3.0]], range: [250 K, 1000 K]}}
 """
-SYN_MOLS = ['CC', 'CCC', 'CC(C)C']
+SYN_MOLS = ['CC', 'CCC', 'CC(C)(C)C']     # neopentane: group C(C)4 has no data -> Estimate fails
 SHIPPED_MOLS = {'BensonGA': ['CCCCCC', 'CC(C)C', 'C1CCCCC1'],
                 'GRWSurface2018': ['C([Pt])C[Pt]', 'OC([Pt])C[Pt]', 'C(=O)([Pt])O']}
 EVALS = [('get_HoRT', 400.0, None), ('get_SoR', 400.0, None),
@@ -565,6 +565,10 @@ def universes(tier):
         for a, b in pairs:
             out.append(('%s|%d%d' % ('+'.join(libs_alpha), a, b), libs_alpha,
                         {'syn': [SYN_MOLS[a], SYN_MOLS[b]]}, 2))
+    # two DIFFERENT schemes in one world, the same SMILES given to both
+    mixed = ['CC(C)C(C)C', 'CC']
+    out.append(('synA+BensonGA|mixed', ('synA', 'BensonGA'),
+                {'syn': mixed, 'BensonGA': mixed}, 2))
     shipped = ['BensonGA'] + (['GRWSurface2018'] if tier == 'thorough' else [])
     for L in shipped:
         for a, b in pairs[:(3 if tier == 'thorough' else 1)]:
@@ -659,6 +663,9 @@ def requests(tier):
             reqs.append((ident, None, None))
             for m in SHIPPED_MOLS[L]:
                 reqs.append((ident, m, None))
+    for ident in (('synA',), ('BensonGA',), ('BensonGA', 'BensonGA'), ('synA', 'synA')):
+        for m in ('CC(C)C(C)C', 'CC'):
+            reqs.append((ident, m, None))
     return reqs
 
 
